@@ -56,12 +56,14 @@ func (d *directChannel) handleNewPeer(s network.Stream) {
 		return
 	}
 
-	length := int(length64)
-
-	if length > DelimitedReadMaxSize {
-		d.logger.Error(fmt.Sprintf("received data exceeding maximum allowed size (%d > %d)", length, DelimitedReadMaxSize))
+	// compare before converting: a length above the int range would turn
+	// negative, pass the limit check and make the allocation below panic
+	if length64 > DelimitedReadMaxSize {
+		d.logger.Error(fmt.Sprintf("received data exceeding maximum allowed size (%d > %d)", length64, DelimitedReadMaxSize))
 		return
 	}
+
+	length := int(length64)
 
 	data := make([]byte, length)
 	if _, err := io.ReadFull(reader, data); err != nil {
